@@ -122,7 +122,7 @@ CONSTRUCTORS = {
     'resistive_load': ({'P': 40.0, 'V_ref': 12.0}, ['P', 'V_ref']),
 }
 LOADER_KINDS = ['resistor', 'conductance', 'dc_voltage_source', 'ac_voltage_source', 'dc_current_source', 'ac_current_source']
-NEG = [-1.0, -1e-9, -1e6, -5]
+NEG = [-1.0, -1e-9, -1e6, -5, float('-inf')]
 
 
 def constructor_cases(tier):
